@@ -69,7 +69,7 @@ func runC05(c *core.Ctx) {
 			continue
 		}
 		r := c.Rand(uint64(ci))
-		nShapes := c.Pick(60, 1500)
+		nShapes := c.Pick(60, 10000)
 		for si := 0; si < nShapes; si++ {
 			caseID := fmt.Sprintf("%s/s%d", cv.Name(), si)
 			ch := r.Range(1, 8)
